@@ -1,4 +1,5 @@
 """C14 - RENUM renumbers lines and every reference to them consistently."""
+import copy
 import re
 import struct
 
@@ -64,7 +65,7 @@ def split_lines(code, lines):
 
 class C14(core.Check):
     ID = 'C14'
-    GEN = ['gen_program']
+    GEN = ['gen_program', 'gen_flow']
     PROPS = 'props/C14.v'
     MODEL_IMPORTS = ['gen.Gen_program', 'model.Program', 'model.Renum']
     QUICK_CASES = 330
@@ -74,10 +75,10 @@ class C14(core.Check):
                'TokenisedStream.skip_to; tied by correspondence on real Sessions (bytecode, line_numbers, '
                'old_to_new, Undefined-line reports, traps, errors); token table regenerated; that every '
                'line-number reference is tokenised as a 0E token is C17 (tokeniser)']
-    PARTIAL = ('behaviour preservation (running the renumbered program behaves the same) is only stated '
-               '(RenumSpec.C14_simulation_statement), neither proved nor tested; the old line number printed in an '
-               'Undefined-line report (get_line_number) is tied by correspondence and the oracle only; on a rejected '
-               'RENUM the side effect on last_stored is not modelled')
+    PARTIAL = ('behaviour preservation: only the abstract half is proved (RENUM is an increasing renaming of the '
+               'lines; the token-level rewriting is that renaming of the reference items; line lookup, ERL line and '
+               'statement structure of the C19/C21 control-flow machine commute with an injective renaming); the '
+               'step-by-step simulation RenumFlow.C14_simulation_flow_statement is stated, not proved, and not tested')
     RULE = ('generated programs with every reference kind, missing targets, ON ERROR GOTO 0, references inside '
             'strings/REM/DATA, active error and event traps before/after the range, random RENUM new,old,step '
             '(including rejected ones); compared with the model on bytecode, line_numbers, old_to_new, reports, '
@@ -254,6 +255,13 @@ class C14(core.Check):
                 res['obs'] = c13.state_obs(p)
                 res['code'] = bytes(p.bytecode.getvalue())
                 res['lines'] = dict(p.line_numbers)
+                if not res['host']:
+                    # after ANY command, failed or not: the index equals a rescan of the code
+                    q = copy.copy(p)
+                    q.bytecode = copy.deepcopy(p.bytecode)
+                    q.line_numbers = dict(p.line_numbers)
+                    q.rebuild_line_dict()
+                    res['rescan'] = (bytes(q.bytecode.getvalue()), dict(q.line_numbers))
                 res['on_error'] = interp.on_error
                 res['gosubs'] = [h.gosub for h in events.all]
                 s.execute(b'ON ERROR GOTO 0')
@@ -274,7 +282,7 @@ class C14(core.Check):
         if r['host']:
             return [2, r['hostk']]
         if r['err']:
-            return [1, r['err']]
+            return [1, r['err'], r['obs'][-1]]
         o2n = []
         for k, v in r['o2n'] or []:
             o2n += [k, v]
@@ -290,7 +298,7 @@ class C14(core.Check):
         tr = '{| on_error := %s; gosubs := [%s] |}' % (c13.opt(r['pre_on_error']),
                                                        '; '.join(c13.opt(g) for g in r['pre_gosubs']))
         a = case['args']
-        return ('(renum_obs (renum_cmd (run {| cs := %d; limit := %d |} [%s]) %s %s %s %s))'
+        return ('(renum_obs_full (run {| cs := %d; limit := %d |} [%s]) %s %s %s %s)'
                 % (r['cs'], r['limit'], ops, tr, c13.opt(a[0]), c13.opt(a[1]), c13.opt(a[2])))
 
     # ---- property oracle
@@ -306,9 +314,13 @@ class C14(core.Check):
                 return 'RENUM %s must be rejected with Illegal function call, got error %s' % (case['args'], r['err'])
             if r['code'] != r['pre_code'] or r['lines'] != r['pre_lines']:
                 return 'rejected RENUM changed the program'
+            if r['rescan'] != (r['code'], r['lines']):
+                return 'after a rejected RENUM the index differs from a rescan of the code'
             return None
         if r['err']:
             return 'RENUM %s must be accepted, got error %d' % (case['args'], r['err'])
+        if r['rescan'] != (r['code'], r['lines']):
+            return 'after RENUM the index differs from a rescan of the code'
         # numbering: new, new+step, ... in the original order; positions unchanged
         exp_lines = {m.get(k, k): p for k, p in r['pre_lines'].items()}
         if r['lines'] != exp_lines:
